@@ -7,6 +7,7 @@ Python (openpectus/aggregator):
   aggregator.py                   FromEngine.register_engine_data, _try_restore_reconnected_engine_data,
                                   engine_disconnected, run_started, run_stopped
   data/repository.py              PlotLogRepository.create_plot_log, RecentRunRepository.store_recent_run,
+                                  (store_recent_engine is called at disconnect and, since /repo cd1ce9ca, at run start/stop)
                                   RecentEngineRepository.store_recent_engine / get_recent_engine_by_engine_id
 
 The database is modelled as append-only row lists with exactly the queries used:
@@ -93,17 +94,20 @@ def step (guarded : Bool) (s : State) : Op → State × Reply
     if !E.registered then (s, .notRegistered)
     else
       let s₁ := match E.run with
-        | none => setEng s e { E with run := some r }
+        | none => s
         | some q =>
           if q = r then s                                   -- "be idempotent and just accept this duplicate"
-          else setEng (storeRecentRun guarded s e q) e { E with run := some r }  -- store the existing run, start the new one
-      (createPlotLog guarded s₁ e r, .ok)                   -- reached from all three branches
+          else storeRecentRun guarded s e q                 -- store the existing run, start the new one
+      -- reached from all three branches: create_plot_log, then store_recent_engine (the RecentEngines row
+      -- remembers the active run right away, /repo cd1ce9ca)
+      (setEng (createPlotLog guarded s₁ e r) e { E with run := some r, recentEngineRun := some (some r) }, .ok)
   | .stop e _ =>
     let E := s.eng e
     if !E.registered then (s, .notRegistered)               -- validate_msg
     else match E.run with                                    -- matching and mismatching id: both store the active run
       | none => (s, .ok)                                    -- "No engine run_data available on run_stopped"
-      | some q => (setEng (storeRecentRun guarded s e q) e { E with run := none }, .ok)
+      | some q =>                                           -- … and store_recent_engine: no run to resume
+        (setEng (storeRecentRun guarded s e q) e { E with run := none, recentEngineRun := some none }, .ok)
 
 def run (guarded : Bool) (s : State) (ops : List Op) : State :=
   ops.foldl (fun s op => (step guarded s op).1) s
